@@ -317,6 +317,25 @@ def _run_case(idx, c):
         b["ckw"].pop("privateKey", None)
         b["ckw"]["settings"] = settings(minVersion=(3, 4), maxVersion=(3, 4), cipherNames=["aes256gcm"])
         state["hit"] = 1
+    captured = {}
+    if cls == "replayed" and site in ("ske12", "cv12", "scv13", "ccv13"):
+        # an earlier, honest handshake of the same parties (other randoms): the signature it carried is kept
+        sc0 = Scenario(f, "c05-%d-earlier" % idx)
+        if kt in EXTRA_KT and site in ("ske12", "scv13"):
+            sc0.b["skw"]["certChain"], sc0.b["skw"]["privateKey"] = cred(SRV_CRED[kt])
+        prover0 = sc0.pair.s if role == "c" else sc0.pair.c
+        for attr in ("_sendMsg", "_queue_message"):
+            o0 = getattr(prover0, attr)
+
+            def cap(msg, *a, _o=o0, **kw):
+                if getattr(msg, "handshakeType", None) == target and getattr(msg, "signature", None):
+                    captured["sig"] = bytes(msg.signature)
+                return _o(msg, *a, **kw)
+            setattr(prover0, attr, cap)
+        cg0, sg0 = sc0.gens()
+        sc0.pair.run(cg0, sg0, max_steps=50000)
+        if captured.get("sig") is None:
+            return {"skip": "earlier handshake did not complete: no signature captured", "case": c}
     # ---- message-level corruptions on the prover's send path
     def mutate(msg):
         if not state["armed"]:
@@ -369,6 +388,9 @@ def _run_case(idx, c):
         elif cls == "declother":
             if decl_other(msg):
                 state["hit"] += 1
+        elif cls == "replayed" and hasattr(msg, "signature") and captured.get("sig") is not None:
+            msg.signature = bytearray(captured["sig"])
+            state["hit"] += 1
     orig_send = prover._sendMsg
     orig_queue = prover._queue_message
 
